@@ -61,7 +61,7 @@ def positions(n):
     return list(range(0, n + 3)) + [NPOS]
 
 
-def gen_exhaustive(ck, hmax, nmax, out, rng, light=False):
+def gen_exhaustive(ck, hmax, nmax, out, rng, light=False, full=False):
     al = ALPHA[ck]
     H = strings(al, hmax)
     N = strings(al, nmax)
@@ -91,7 +91,7 @@ def gen_exhaustive(ck, hmax, nmax, out, rng, light=False):
             out.append(f"rmpre {ck} {hs} {p}")
             out.append(f"rmsuf {ck} {hs} {p}")
     # pointer overloads: C strings may contain an embedded zero (the C string then stops there)
-    HS = strings(al, min(hmax, 3))
+    HS = strings(al, 2 if light else min(hmax, 3))
     SP = strings(al + [0], min(nmax, 2))
     for h in HS:
         hs = L(h)
@@ -100,7 +100,7 @@ def gen_exhaustive(ck, hmax, nmax, out, rng, light=False):
             for p in positions(len(h)):
                 for fam in FAMS:
                     out.append(f"{fam}_p {ck} {hs} {ss} {p}")
-                    if not light or p in (0, len(h), NPOS):
+                    if full or p in (0, len(h), NPOS):
                         for k in range(0, len(s) + 1):
                             out.append(f"{fam}_pc {ck} {hs} {ss} {p} {k}")
             out.append(f"contains_p {ck} {hs} {ss}")
@@ -134,7 +134,7 @@ def gen_exhaustive(ck, hmax, nmax, out, rng, light=False):
                 for k1 in pa:
                     for p2 in pb:
                         for k2 in pb:
-                            if light and rng.random() < 0.7:
+                            if not full and rng.random() < (0.7 if light else 0.5):
                                 continue
                             out.append(f"compare_5 {ck} {L(a)} {p1} {k1} {L(b)} {p2} {k2}")
 
@@ -210,9 +210,9 @@ def gen_random(ck, count, out, rng):
 def gen(tier, rng):
     out = []
     if tier == "thorough":
-        gen_exhaustive("c", 5, 3, out, rng)
-        gen_exhaustive("w", 4, 3, out, rng)
-        gen_exhaustive("u", 4, 3, out, rng)
+        gen_exhaustive("c", 5, 3, out, rng, full=True)
+        gen_exhaustive("w", 4, 3, out, rng, full=True)
+        gen_exhaustive("u", 4, 3, out, rng, full=True)
         gen_exhaustive("s", 3, 2, out, rng, light=True)
         gen_exhaustive("b", 3, 2, out, rng, light=True)
         for ck in ("c", "w", "u", "s", "b"):
